@@ -351,4 +351,77 @@ theorem rhumb_inverse_shortest' (lon1 lon2 lon12 : ℝ) (K : InvKernels ℝ) (hc
     show Real.sqrt (lam12 ^ 2 + psi12 ^ 2) * K.dmudpsi * K.rm * (psi12 / Real.sqrt (lam12 ^ 2 + psi12 ^ 2)) = _
     field_simp
 
+
+/-! ### DClenshaw -/
+
+theorem clen_cons (X c : ℝ) (cs : List ℝ) : clen X (c :: cs) = (X * (clen X cs).1 - (clen X cs).2 + c, (clen X cs).1) := rfl
+theorem dclen_cons (Xa Xb D2 c : ℝ) (cs : List ℝ) :
+    dclen Xa Xb D2 (c :: cs) =
+      ((Xa * (dclen Xa Xb D2 cs).1.1 + D2 * Xb * (dclen Xa Xb D2 cs).1.2 - (dclen Xa Xb D2 cs).2.1 + c,
+        Xb * (dclen Xa Xb D2 cs).1.1 + Xa * (dclen Xa Xb D2 cs).1.2 - (dclen Xa Xb D2 cs).2.2), (dclen Xa Xb D2 cs).1) := rfl
+
+/-- the matrix recurrence carries (mean, half divided difference) of the two scalar Clenshaw recurrences with
+    `X₂ = Xa + D·Xb`, `X₁ = Xa − D·Xb` -/
+theorem dclen_inv (Xa Xb D : ℝ) (cs : List ℝ) :
+    (dclen Xa Xb (D * D) cs).1.1 = ((clen (Xa + D * Xb) cs).1 + (clen (Xa - D * Xb) cs).1) / 2 ∧
+    (dclen Xa Xb (D * D) cs).1.2 * D = ((clen (Xa + D * Xb) cs).1 - (clen (Xa - D * Xb) cs).1) / 2 ∧
+    (dclen Xa Xb (D * D) cs).2.1 = ((clen (Xa + D * Xb) cs).2 + (clen (Xa - D * Xb) cs).2) / 2 ∧
+    (dclen Xa Xb (D * D) cs).2.2 * D = ((clen (Xa + D * Xb) cs).2 - (clen (Xa - D * Xb) cs).2) / 2 := by
+  induction cs with
+  | nil => simp [dclen, clen, lit0]
+  | cons c cs ih =>
+    obtain ⟨h1, h2, h3, h4⟩ := ih
+    rw [dclen_cons, clen_cons, clen_cons]
+    refine ⟨?_, ?_, h1, h2⟩
+    · show Xa * _ + D * D * Xb * _ - _ + c = _
+      linear_combination Xa * h1 + (D * Xb) * h2 - h3
+    · show (Xb * _ + Xa * _ - _) * D = _
+      linear_combination (D * Xb) * h1 + Xa * h2 - h4
+
+theorem dclenshaw_gen (sinp : Bool) (Δ s1 c1 s2 c2 : ℝ) (cs : List ℝ) (h1 : s1 ^ 2 + c1 ^ 2 = 1) (h2 : s2 ^ 2 + c2 ^ 2 = 1)
+    (hΔ : szetamd Δ s1 c1 s2 c2 * Δ = s2 * c1 - c2 * s1) :
+    DClenshaw sinp Δ s1 c1 s2 c2 cs * Δ = clenshaw sinp s2 c2 cs - clenshaw sinp s1 c1 cs := by
+  unfold DClenshaw clenshaw
+  simp only [lit0, lit1, lit2]
+  set smd := szetamd Δ s1 c1 s2 c2 with hsmd
+  set Xa := 2 * (c2 * c1 - s2 * s1) * (c2 * c1 + s2 * s1) with hXa
+  set Xb := -(2 * (s2 * c1 + c2 * s1) * smd) with hXb
+  have hX2 : Xa + Δ * Xb = 2 * (c2 - s2) * (c2 + s2) := by
+    rw [hXa, hXb]; linear_combination (-2 * (s2 * c1 + c2 * s1)) * hΔ + (2 * (c2 ^ 2 - s2 ^ 2)) * h1
+  have hX1 : Xa - Δ * Xb = 2 * (c1 - s1) * (c1 + s1) := by
+    rw [hXa, hXb]; linear_combination (2 * (s2 * c1 + c2 * s1)) * hΔ + (2 * (c1 ^ 2 - s1 ^ 2)) * h2
+  obtain ⟨hA, hB, hC, hV⟩ := dclen_inv Xa Xb Δ cs
+  rw [hX2, hX1] at hA hB hC hV
+  set U2 := (clen (2 * (c2 - s2) * (c2 + s2)) cs).1
+  set U1 := (clen (2 * (c1 - s1) * (c1 + s1)) cs).1
+  set V2 := (clen (2 * (c2 - s2) * (c2 + s2)) cs).2
+  set V1 := (clen (2 * (c1 - s1) * (c1 + s1)) cs).2
+  set A := (dclen Xa Xb (Δ * Δ) cs).1.1
+  set B := (dclen Xa Xb (Δ * Δ) cs).1.2
+  set W := (dclen Xa Xb (Δ * Δ) cs).2.2
+  cases sinp
+  · -- cosine series
+    simp only [Bool.false_eq_true, if_false]
+    linear_combination (2 * ((c2 * c1 - s2 * s1) * (c2 * c1 + s2 * s1))) * hB
+      - (2 * (s2 * c1 + c2 * s1) * (s2 * c1 - c2 * s1)) * hA - (2 * (s2 * c1 + c2 * s1) * A) * hΔ - 2 * hV
+      + ((c2 ^ 2 - s2 ^ 2) * U2) * h1 - ((c1 ^ 2 - s1 ^ 2) * U1) * h2
+  · -- sine series
+    simp only [if_true]
+    linear_combination (2 * ((s2 * c1 + c2 * s1) * (c2 * c1 + s2 * s1))) * hB
+      + (2 * (c2 * c1 - s2 * s1) * (s2 * c1 - c2 * s1)) * hA + (2 * (c2 * c1 - s2 * s1) * A) * hΔ
+      + (2 * (s2 * c2) * U2) * h1 - (2 * (s1 * c1) * U1) * h2
+
+theorem dclenshaw_dd' (sinp : Bool) (z1 z2 : ℝ) (cs : List ℝ) (hne : z2 - z1 ≠ 0) (h1 : z2 - z1 ≠ 1) :
+    DClenshaw sinp (z2 - z1) (sin z1) (cos z1) (sin z2) (cos z2) cs * (z2 - z1)
+      = clenshaw sinp (sin z2) (cos z2) cs - clenshaw sinp (sin z1) (cos z1) cs := by
+  apply dclenshaw_gen _ _ _ _ _ _ _ (Real.sin_sq_add_cos_sq z1) (Real.sin_sq_add_cos_sq z2)
+  unfold szetamd
+  simp only [eqb_real, decide_eq_true_eq, lit0, lit1, sin_real, if_neg h1, if_neg hne]
+  rw [div_mul_cancel₀ _ hne, Real.sin_sub]
+
+theorem dclenshaw_diff' (sinp : Bool) (s1 c1 s2 c2 : ℝ) (cs : List ℝ) (h1 : s1 ^ 2 + c1 ^ 2 = 1) (h2 : s2 ^ 2 + c2 ^ 2 = 1) :
+    DClenshaw sinp 1 s1 c1 s2 c2 cs = clenshaw sinp s2 c2 cs - clenshaw sinp s1 c1 cs := by
+  have h := dclenshaw_gen sinp 1 s1 c1 s2 c2 cs h1 h2 (by unfold szetamd; simp [lit1])
+  rwa [mul_one] at h
+
 end GeoVerif.Proofs.Rhumb
